@@ -24,7 +24,7 @@
    format has no place for the distinction): tagged_blocks=None beside a layer info, layer_count=0
    with (empty) lists, opacity/kind without overlay colour, presence flag without parameters. *)
 From PsdV Require Import Base.Prelude Psd.Codec Psd.Model Psd.Legacy Psd.Proofs Psd.Leaf Psd.LeafProofs Psd.Descriptor Psd.DescriptorProofs Psd.Effects Psd.EffectsProofs
-  Psd.Patterns Psd.PatternsProofs Psd.Struct Psd.Adjust Psd.AdjustProofs Psd.Vector Psd.VectorProofs Psd.Linked Psd.LinkedProofs Psd.Typed.
+  Psd.Patterns Psd.PatternsProofs Psd.Struct Psd.Adjust Psd.AdjustProofs Psd.Vector Psd.VectorProofs Psd.Linked Psd.LinkedProofs Psd.FilterFx Psd.FilterFxProofs Psd.Typed.
 From Coq Require Import ZArith List Bool Lia.
 Import ListNotations.
 Open Scope Z_scope.
@@ -568,6 +568,78 @@ Proof.
     split; [reflexivity|]. split; [reflexivity|]. split; vm_compute; reflexivity.
 Qed.
 Print Assumptions linked_layer_roundtrip_refuted.
+
+(* ------------------------------------------------------------------ Stage 3 (4): filter effects (Psd/FilterFx.v)
+   FilterEffects (version + items in 8-byte length blocks padded to 4), FilterEffect (uuid, version, the body block
+   with rectangle / depth / max_channels and max_channels + 2 channels, the optional extra), FilterEffectChannel,
+   FilterEffectExtra. *)
+Theorem filter_effect_parts_roundtrip :
+  (forall c bs n rest, wf_fchannel c = true -> write_fchannel c = Ok (bs, n) ->
+                       read_fchannel (bs ++ rest) = Ok (c, rest) /\ n = len bs) /\
+  (forall x bs n rest, wf_fextra x = true -> write_fextra x = Ok (bs, n) ->
+                       read_fextra (bs ++ rest) = Ok (x, rest) /\ n = len bs).
+Proof.
+  split.
+  - intros c bs n rest Hwf H. split; [exact (proj1 (fchannel_rt c bs n rest Hwf H))|exact (wtruth_fchannel c bs n H)].
+  - intros x bs n rest Hwf H. split; [exact (proj1 (fextra_rt x bs n rest Hwf H))|exact (wtruth_fextra x bs n H)].
+Qed.
+Print Assumptions filter_effect_parts_roundtrip.
+Theorem filter_effect_roundtrip : forall enc_s dec_s e bs n,
+  wf_feffect enc_s dec_s e = true -> write_feffect enc_s e = Ok (bs, n) -> read_feffect dec_s bs = Ok e /\ n = len bs.
+Proof.
+  intros enc_s dec_s e bs n Hwf H. split; [exact (feffect_rt enc_s dec_s e bs n Hwf H)|exact (wtruth_feffect enc_s e bs n H)].
+Qed.
+Print Assumptions filter_effect_roundtrip.
+Theorem filter_effects_roundtrip : forall enc_s dec_s v l bs n,
+  wf_feffects enc_s dec_s v l = true -> write_feffects enc_s v l = Ok (bs, n) ->
+  read_feffects dec_s bs = Ok (v, l) /\ n = len bs.
+Proof.
+  intros enc_s dec_s v l bs n Hwf H. split; [exact (feffects_rt enc_s dec_s v l bs n Hwf H)|exact (wtruth_feffects enc_s v l bs n H)].
+Qed.
+Print Assumptions filter_effects_roundtrip.
+Theorem filter_effects_block_roundtrip : forall enc_s dec_s ver pad sg key v l bs n rest,
+  (pad = 1 \/ pad = 2 \/ pad = 4) -> memz sg model_tb_sigs = true -> wf_feffects enc_s dec_s v l = true ->
+  write_payload_block ver pad sg key (write_feffects enc_s v l) = Ok (bs, n) ->
+  read_payload_block (read_feffects dec_s) ver pad (bs ++ rest) = Ok (Some (sg, key, (v, l), rest)).
+Proof.
+  intros enc_s dec_s ver pad sg key v l bs n rest Hp Hs Hwf H.
+  apply (payload_block_rt ver pad sg key (write_feffects enc_s v l) (read_feffects dec_s) (v, l) bs n rest Hp Hs
+           (wtruth_feffects enc_s v l)); [|exact H].
+  intros body m Hb. exact (feffects_rt enc_s dec_s v l body m Hwf Hb).
+Qed.
+Print Assumptions filter_effects_block_roundtrip.
+
+Definition ex_fx : list feffect :=
+  [mkFE [49; 50] 1 [-1; 0; 2147483647; -2147483648] 8 1 [mkFCh 0 None []; mkFCh 1 None []; mkFCh 7 (Some 1) [1; 2; 3]]
+        (Some (mkFEx 1 [1; 2; 3; 4] 0 [5]));
+   mkFE [] 0 [0; 0; 0; 0] 16 0 [mkFCh 1 (Some 0) []; mkFCh 0 None []] None;
+   mkFE [] 0 [0; 0; 0; 0] 16 0 [mkFCh 1 (Some 0) []; mkFCh 0 None []] (Some (mkFEx 0 [0; 0; 0; 0] 0 []))].
+Example filter_effects_roundtrip_satisfiable :
+  wf_feffects raw_codec raw_codec 1 ex_fx = true /\ exists bs n, write_feffects raw_codec 1 ex_fx = Ok (bs, n) /\ n = 240.
+Proof. split; [vm_compute; reflexivity|]. do 2 eexists. split; [vm_compute; reflexivity|reflexivity]. Qed.
+
+(* what the guards exclude: a channel that is not written drops its compression and data; a channel without a
+   compression writes an empty block whatever its data; the reader takes max_channels + 2 channels whatever the
+   writer emitted *)
+Theorem filter_effect_roundtrip_refuted :
+  (exists c bs n c', fc_written c = 0 /\ fc_comp c = Some 1 /\ write_fchannel c = Ok (bs, n) /\
+                     read_fchannel bs = Ok (c', []) /\ fc_comp c' = None) /\
+  (exists c bs n c', fc_comp c = None /\ fc_data c = [9] /\ write_fchannel c = Ok (bs, n) /\
+                     read_fchannel bs = Ok (c', []) /\ fc_data c' = []) /\
+  (exists e bs n, fe_maxch e = 1 /\ len (fe_channels e) = 2 /\ write_feffect raw_codec e = Ok (bs, n) /\
+                  read_feffect raw_codec bs = Err IOErr).
+Proof.
+  split; [|split].
+  - exists (mkFCh 0 (Some 1) [9]), [0; 0; 0; 0], 4, (mkFCh 0 None []).
+    split; [reflexivity|]. split; [reflexivity|]. split; [vm_compute; reflexivity|]. split; [vm_compute; reflexivity|reflexivity].
+  - exists (mkFCh 1 None [9]), [0; 0; 0; 1; 0; 0; 0; 0; 0; 0; 0; 0], 12, (mkFCh 1 None []).
+    split; [reflexivity|]. split; [reflexivity|]. split; [vm_compute; reflexivity|]. split; [vm_compute; reflexivity|reflexivity].
+  - exists (mkFE [97] 1 [0; 0; 1; 1] 8 1 [mkFCh 1 None []; mkFCh 1 None []] None).
+    exists [1; 97; 0; 0; 0; 1; 0; 0; 0; 0; 0; 0; 0; 48; 0; 0; 0; 0; 0; 0; 0; 0; 0; 0; 0; 1; 0; 0; 0; 1; 0; 0; 0; 8; 0; 0; 0; 1; 0; 0; 0; 1;
+            0; 0; 0; 0; 0; 0; 0; 0; 0; 0; 0; 1; 0; 0; 0; 0; 0; 0; 0; 0], 62.
+    split; [reflexivity|]. split; [reflexivity|]. split; vm_compute; reflexivity.
+Qed.
+Print Assumptions filter_effect_roundtrip_refuted.
 
 (* back-patching the length = emitting the inner bytes after the packed length *)
 Theorem length_block_backpatch : forall buf lb body,
